@@ -10,7 +10,7 @@ from collections import Counter
 
 from hypothesis import strategies as st
 
-from vf.core import Fail, HypPart, Oracle, spsdk_frame
+from vf.core import Fail, HypPart, Oracle, SkipCase, spsdk_frame
 from vf.ref.regmodel import MFile, MGroup, Reject
 
 ID = "C11"
@@ -353,6 +353,16 @@ def _build(layout: dict):
     from spsdk.utils.misc import Endianness
 
     endian = Endianness.LITTLE if layout["endian"] == "little" else Endianness.BIG
+    if layout.get("db"):
+        # a real register file: built exactly as the callers (pfr, fuses, shadowregs, bca, fcf) build it
+        d = layout["db"]
+        if layout["fuse"]:
+            from spsdk.fuses.fuse_registers import FuseRegisters
+
+            return FuseRegisters(family=d["family"], base_endianness=endian)
+        from spsdk.utils.registers import Registers
+
+        return Registers(family=d["family"], feature=d["feature"], base_key=d["sub"] or None, base_endianness=endian)
     if layout["fuse"]:
         from spsdk.fuses.fuse_registers import FuseRegisters
 
@@ -364,6 +374,157 @@ def _build(layout: dict):
     spec, grouped = _spec_of(layout)
     regs._load_from_spec(spec, grouped)
     return regs
+
+
+# ---------------------------------------------------------------------- real layouts from the device database
+def _num(x, default: int = 0) -> int:
+    """Number as written in the specification files (int, or decimal / 0x / 0b text)."""
+    if x is None:
+        return default
+    if isinstance(x, bool):
+        return int(x)
+    if isinstance(x, int):
+        return x
+    t = str(x).strip().lower().replace("_", "")
+    for pre, base in (("0x", 16), ("0b", 2), ("0o", 8)):
+        if t.startswith(pre):
+            return int(t[2:], base)
+    return int(t, 10)
+
+
+def _truth(x) -> bool:
+    return x in ("True", "true", "T", "1") if isinstance(x, str) else bool(x)
+
+
+def _layout_from_spec(spec: dict, grouped: list, endian: str, fuse: bool) -> dict:
+    """Translate a database register specification into the layout description (own reading of the JSON)."""
+    regs = []
+    for grp in spec.get("groups", []):
+        for r in grp.get("registers", []):
+            fields = []
+            off = 0
+            for b in r.get("bitfields", []):
+                w = _num(b.get("width", 0))
+                shift = 0
+                cp = b.get("config_preprocess")
+                if cp and cp.split(":")[0] == "SHIFT_RIGHT":
+                    params = dict(kv.split("=") for kv in cp.split(";")[0].split(":")[1].split(","))
+                    shift = _num({k.lower(): v for k, v in params.items()}["count"])
+                fields.append({"name": b.get("name"), "uid": b.get("id", ""), "off": off, "width": w, "shift": shift,
+                               "enums": [[e.get("name", "N/A"), _num(e["value"])] for e in b.get("values", [])],
+                               "reset": _num(b.get("reset_value_int", 0))})
+                off += w
+            regs.append({"name": r.get("name", "N/A"), "uid": r.get("id", ""), "offset": _num(r.get("offset_int", 0)), "width": _num(r.get("reg_width", 32)),
+                         "hidden": _truth(r.get("is_reserved", False)), "reset": _num(r.get("reset_value_int", 0)), "fields": fields})
+    groups = []
+    for g in grouped or []:
+        subs = [i for i, r in enumerate(regs) if r["uid"] in g["sub_regs"]]  # members join in file order
+        if not subs:
+            continue
+        groups.append({"name": g["name"], "uid": g["uid"], "subs": subs, "width": _num(g.get("width", 0)), "offset": _num(g.get("offset", 0)),
+                       "reversed": _truth(g.get("reversed", False)), "rev_order": bool(g.get("reverse_subregs_order", False)),
+                       "hexstring": bool(g.get("config_as_hexstring", False)), "alt": list(g.get("alternative_widths") or [])})
+    return {"endian": endian, "fuse": fuse, "regs": regs, "groups": groups}
+
+
+def _layout_usable(lay: dict) -> str:
+    """'' if the model's assumptions hold for this real layout, else the reason it is left out."""
+    names = [r["name"] for r in lay["regs"]] + [g["name"] for g in lay["groups"]]
+    uids = [r["uid"] for r in lay["regs"]] + [g["uid"] for g in lay["groups"]]
+    if len(set(names)) != len(names) or len(set(uids)) != len(uids) or set(names) & set(uids) - {n for n, u in zip(names, uids) if n == u}:
+        return "duplicate register names/ids"
+    if not lay["regs"]:
+        return "no registers"
+    member = {i for g in lay["groups"] for i in g["subs"]}
+    offs = [r["offset"] for i, r in enumerate(lay["regs"]) if i not in member and r["offset"]]
+    if len(set(offs)) != len(offs):
+        return "registers sharing an offset (alias merging is not modelled)"
+    for r in lay["regs"]:
+        if r["width"] % 8 or r["width"] == 0:
+            return "register width not a multiple of 8"
+        fn = [f["name"] for f in r["fields"] if f["name"] is not None]
+        fu = [f["uid"] for f in r["fields"] if f["uid"]]
+        if len(set(fn)) != len(fn) or len(set(fu)) != len(fu) or (set(fn) & set(fu)) - {f["name"] for f in r["fields"] if f["name"] == f["uid"]}:
+            return "duplicate bit-field names/ids"
+        if sum(f["width"] for f in r["fields"]) > r["width"] or any(f["width"] <= 0 for f in r["fields"]):
+            return "bit-fields exceed the register"
+        for f in r["fields"]:
+            fr = f["reset"]
+            if fr and (f["shift"] or fr >> f["width"] or (r["reset"] and (r["reset"] >> f["off"]) & ((1 << f["width"]) - 1) != fr)):
+                return "inconsistent reset values"
+            if any(v >> (f["width"] + f["shift"]) for _, v in f["enums"]) or len({n for n, _ in f["enums"]}) != len(f["enums"]):
+                return "enum outside the field / duplicate enum names"
+    for g in lay["groups"]:
+        ws = {lay["regs"][i]["width"] for i in g["subs"]}
+        if len(ws) != 1:
+            return "group members of different width"
+        sw = ws.pop()
+        if g["width"] and g["width"] != sw * len(g["subs"]):
+            return "group width differs from the sum of its members"
+        if any(a % sw or a >= sw * len(g["subs"]) for a in g["alt"]) or (g["alt"] and g["rev_order"]):
+            return "alternative widths not usable"
+        if g["alt"] and any(lay["regs"][i]["reset"] or any(f["reset"] for f in lay["regs"][i]["fields"]) for i in g["subs"]):
+            return "alternative widths with member reset values"
+    return ""
+
+
+def _overlapping(lay: dict) -> bool:
+    m = MFile(lay)
+    spans = sorted((t.offset, t.offset + t.width // 8) for t in m.top)
+    return any(a[1] > b[0] for a, b in zip(spans, spans[1:]))
+
+
+def _db_locate(d: dict):
+    """(spec path, grouped register list) the way Registers.__init__ looks them up."""
+    from spsdk.utils.database import get_db
+
+    db = get_db(d["family"])
+    key = [d["sub"], "reg_spec"] if d["sub"] else "reg_spec"
+    gkey = [d["sub"], "grouped_registers"] if d["sub"] else "grouped_registers"
+    return db.get_file_path(d["feature"], key), db.get_list(d["feature"], gkey, [])
+
+
+def _db_layout(d: dict) -> dict:
+    path, grouped = _db_locate(d)
+    with open(path, encoding="utf-8") as f:
+        spec = json.load(f)
+    lay = _layout_from_spec(spec, grouped, d["endian"], d["feature"] == "fuses")
+    lay["db"] = dict(d)
+    return lay
+
+
+_CATALOG: list = []
+_CATALOG_SKIPPED: dict = {}
+
+
+def _db_catalog() -> list:
+    """Every (feature, family, sub-feature, endianness) whose register file the callers load; deterministic order."""
+    if _CATALOG:
+        return _CATALOG
+    try:
+        from spsdk.utils.database import get_families
+    except ImportError:
+        return []
+    cand = []
+    for sub in ("cfpa", "cmactable", "cmpa", "romcfg"):
+        cand += [{"feature": "pfr", "family": fam, "sub": sub, "endian": "little"} for fam in sorted(get_families("pfr", sub))]
+    for feat in ("bca", "fcf"):
+        cand += [{"feature": feat, "family": fam, "sub": "", "endian": "little"} for fam in sorted(get_families(feat))]
+    for fam in sorted(get_families("fuses")):
+        cand += [{"feature": "fuses", "family": fam, "sub": "", "endian": e} for e in ("big", "little")]
+    for d in cand:
+        try:
+            path, _ = _db_locate(d)
+            if not path.endswith(".json"):
+                raise ValueError("specification is not JSON")
+            why = _layout_usable(_db_layout(d))
+        except Exception as exc:  # noqa: BLE001 - an entry the database cannot serve is simply not a layout
+            why = "%s: %s" % (type(exc).__name__, str(exc)[:60])
+        if why:
+            _CATALOG_SKIPPED["%s/%s/%s" % (d["feature"], d["family"], d["sub"])] = why
+        else:
+            _CATALOG.append(d)
+    return _CATALOG
 
 
 def _field_name(f) -> str:
@@ -1155,6 +1316,17 @@ def _on_alarm(signum, frame):
     raise _Hang("case exceeded %d s" % _CASE_TIMEOUT_S)
 
 
+def run_db_history(case, o: Oracle) -> None:
+    d = case["db"]
+    layout = _db_layout(d)
+    why = _layout_usable(layout)
+    if why:
+        raise SkipCase()
+    o.label("db:" + d["feature"], "db_layout")
+    run_history({"layout": layout, "ops": case["ops"]}, o)
+    o.sample({"db": d, "registers": len(layout["regs"]), "groups": [g["name"] for g in layout["groups"]], "ops": [op["op"] for op in case["ops"]]})
+
+
 def run_history(case, o: Oracle) -> None:
     layout = case["layout"]
     run = _Run(case, o)
@@ -1200,7 +1372,19 @@ def run_history(case, o: Oracle) -> None:
               "ops": [op["op"] for op in case["ops"]]})
 
 
+def _db_case():
+    cat = _db_catalog()
+    length = st.tuples(st.integers(1, _MAX_STEPS), st.integers(1, _MAX_STEPS)).map(max)
+    ops = length.flatmap(lambda n: st.lists(_op(), min_size=n, max_size=n))
+    return st.fixed_dictionaries({"db": st.sampled_from(cat), "ops": ops})
+
+
 def parts(ctx):
-    return [
-        HypPart("history", _case(), run_history, {"quick": 2400, "thorough": 120000}, stateful_steps=_MAX_STEPS),
-    ]
+    out = [HypPart("history", _case(), run_history, {"quick": 6000, "thorough": 300000}, stateful_steps=_MAX_STEPS)]
+    if _db_catalog():
+        out.append(HypPart("db_history", _db_case, run_db_history, {"quick": 320, "thorough": 16000}, stateful_steps=_MAX_STEPS))
+    return out
+
+
+def extra_coverage(ctx, rec) -> dict:
+    return {"db_layouts_in_catalog": len(_CATALOG), "db_layouts_left_out": dict(sorted(_CATALOG_SKIPPED.items()))}
